@@ -46,6 +46,17 @@ META = {
 }
 
 
+
+def canon(x):
+    """order-independent text of a source description (sets are printed sorted: their repr() order depends on the hash seed)"""
+    if isinstance(x, (set, frozenset)):
+        return "{" + ", ".join(sorted(canon(e) for e in x)) + "}"
+    if isinstance(x, tuple):
+        return "(" + ", ".join(canon(e) for e in x) + ")"
+    if isinstance(x, list):
+        return "[" + ", ".join(canon(e) for e in x) + "]"
+    return repr(x)
+
 def K(body, inst):
     return "%s:%s" % (lc.short(body), inst)
 
@@ -458,14 +469,14 @@ def sib3(ctx, f, spec):
         ("new", "zvariant::dbus::de::StructureDeserializer"): [("const", 8)],
     }
     for k, exp in exp_full.items():
-        g = sorted(repr(s) for s, c in got.get(k, []))
-        e = sorted(repr(s) for s in exp)
+        g = sorted(canon(s) for s, c in got.get(k, []))
+        e = sorted(canon(s) for s in exp)
         where = got[k][0][1].where if k in got else "zvariant/src/dbus/de.rs"
         ctx.ob("SIB-3", "reader-site:%s::%s" % (k[1].rsplit("::", 1)[1], k[0]), g == e, "parse_padding sources %s; confirmed %s" % (g, e), where)
     for k in got:
         if k not in exp_full:
             ctx.ob("SIB-3", "reader-site:%s::%s" % (str(k[1]).rsplit("::", 1)[1], k[0]), False,
-                   "parse_padding site outside the confirmed table: %s" % [repr(s) for s, c in got[k]], got[k][0][1].where)
+                   "parse_padding site outside the confirmed table: %s" % [canon(s) for s, c in got[k]], got[k][0][1].where)
 
 
 # ============================================================================================ SIB-4 signature save/restore
